@@ -15,7 +15,7 @@ Definition Qmaxf (a b : Q) : Q := if Qlt_le_dec a b then b else a.
 Definition Qops : ops Q :=
   mkops Q Qplus Qminus Qmult Qdiv Qopp (fun x => x) (fun x => x * x) 0 1 2 (1 # 2)
         (fun x => x) (fun x => x) (fun x => x) Qmaxf (fun n => inject_Z (Z.of_nat n))
-        (fun x => x) (fun a b => (a, b)).
+        (fun x => x) (fun a b => (a, b)) 10 (fun x => x) (fun x => x) (fun x => x).
 
 Notation qmsg := (msg (T := Q)).
 Notation veq := (Forall2 Qeq).
